@@ -71,15 +71,17 @@ def run(chk: core.Check, tier: str, seed: int) -> None:
     rng = random.Random(seed)
     recs = []
     n_q = 3000 if tier == "quick" else 40000
+    from .. import probes  # noqa: PLC0415
+    nd_env = probes.make_env(jp, [], [], nondeterministic=True)
     for k in range(n_q):
         names = gen.NASTY_NAMES if k % 2 == 0 else gen.PLAIN_NAMES
         d = gen.rand_doc(rng, depth=rng.randint(1, 4), width=rng.randint(1, 4), names=names, p_container=0.75)
         dn = sorted(gen.names_in(d)) or list(names[:2])
         qg = gen.QueryGen(rng, dn, level=rng.choice([0, 1, 2]))
-        q = qg.query(depth=1, allow_filter=True) if k % 3 else "$" + rng.choice(["..*", "..[-1]", "..[::-1]", "[*][-1]", "..[?@]", ".*.*"])
+        q = qg.query(depth=1, allow_filter=True) if k % 3 else "$" + rng.choice(["..*", "..[-1]", "..[::-1]", "[*][-1]", "..[?@]", ".*.*", "..a", "..[0]"])
         try:
             ed = core.enc_value(d)
-            nodes = jp.find(q, d)
+            nodes = (nd_env if k % 4 == 1 else jp).find(q, d)
         except Exception:  # noqa: BLE001
             continue
         lists_ok = (nodes.values() == [n.value for n in nodes] and nodes.paths() == [n.path() for n in nodes]
